@@ -464,6 +464,10 @@ class Driver(object):
                 self._call(req, r.startAllProcesses, bool(a[3]))
             elif what == 'stopall':
                 self._call(req, r.stopAllProcesses, bool(a[3]))
+            elif what == 'signalall':          # monitor-judged scripts only (not in the Coq model)
+                self._call(req, r.signalAllProcesses, str(a[3]))
+            elif what == 'signalgroup':
+                self._call(req, r.signalProcessGroup, gname(a[3]), str(a[4]))
             elif what == 'shutdown':
                 self._call(req, r.shutdown)
             elif what == 'restart':
